@@ -108,6 +108,8 @@ class StrEval:
                 return (a == b) == (op == '==')
             if isinstance(a, Opaque) or isinstance(b, Opaque):
                 raise Unknown('arithmetic on %r, %r' % (a, b))
+            if op == '[]' and isinstance(a, list) and isinstance(b, int):
+                return a[b] if 0 <= b < len(a) else ''
             if op == '[]' and isinstance(a, str) and isinstance(b, int):
                 if 0 <= b < len(a):
                     return a[b]
